@@ -18,6 +18,14 @@ CHECKS = {
         note=TB + "Modelled not verified: parse.py's set parser (C08), the command glue around the function (compared by X only).",
         ref="6/C15"),
 }
+CHECKS["C18"] = dict(
+    technique="Coq refinement proof (generated throttle vs reference automaton) + differential correspondence on the real login paths",
+    text="Theorem: for every timed attempt sequence of any length under a non-decreasing clock the py2v-translated "
+         "check_allow/login_failed composed as do_login composes them return exactly the verdicts of a reference "
+         "automaton written from the property text; lockout, no-false-lockout and expiry are corollaries. The real LOGIN "
+         "and POP3 PASS paths and the pre-authentication gate are tied by correspondence runs under a virtual clock.",
+    note=TB + "Modelled not verified: password hashing (oracle pw_ok), the subprocess spawn, float clock values (runs use integers).",
+    ref="6/C18")
 NOT_YET = {}
 
 props = [json.loads(l) for l in (V / "properties.jsonl").read_text().splitlines() if l.strip()]
